@@ -1,6 +1,8 @@
 from sa.selftest.harness import M, T
 
 X = "sharepoint2text/parsing/extractors/"
+EP = "sharepoint2text/parsing/extractors/epub_extractor.py"
+EN = "sharepoint2text/parsing/extractors/util/encryption.py"
 MUTANTS = [
     M("docx-detector-dropped", X + "ms_modern/docx_extractor.py", "        if is_ooxml_encrypted(file_like):\n            raise ExtractionFileEncryptedError(", "        if False and is_ooxml_encrypted(file_like):\n            raise ExtractionFileEncryptedError(", "C08-DET", "read_docx"),
     M("ods-detector-after-yield-path", X + "open_office/ods_extractor.py", "        if is_odf_encrypted(file_like):\n            raise ExtractionFileEncryptedError(\"ODS is encrypted or password-protected\")", "        if path and is_odf_encrypted(file_like):\n            raise ExtractionFileEncryptedError(\"ODS is encrypted or password-protected\")", "C08-DET", "read_ods"),
@@ -15,10 +17,16 @@ MUTANTS = [
     M("filepass-id", X + "util/encryption.py", "if record_id == 0x002F:", "if record_id == 0x002E:", "C08-CONST"),
     M("ole-stream-name", X + "util/encryption.py", '("EncryptionInfo", "EncryptedPackage", "DataSpaces")', '("EncryptionInfo", "EncryptedPackage")', "C08-CONST"),
     M("aes-binding-dropped", X + "pdf/_pypdf_aes_fallback.py", "    enc.aes_cbc_decrypt = aes_cbc_decrypt\n", "", "C08-PATCH"),
+    M("epub-any-entry-is-drm", EP, "            if any(not _is_font_obfuscation(e) for e in encrypted):", "            if encrypted:", "C08-CONST"),
+    M("epub-all-instead-of-any", EP, "            if any(not _is_font_obfuscation(e) for e in encrypted):", "            if encrypted and all(not _is_font_obfuscation(e) for e in encrypted):", "C08-CONST"),
+    M("epub-aes-counts-as-obfuscation", EP, '        "http://ns.adobe.com/pdf/enc#RC",\n', '        "http://ns.adobe.com/pdf/enc#RC",\n        "http://www.w3.org/2001/04/xmlenc#aes256-cbc",\n', "C08-CONST"),
+    M("xls-writeprot-record", EN, "        if record_id == 0x002F:  # FILEPASS\n", "        if record_id in (0x002F, 0x0086):  # FILEPASS\n", "C08-CONST"),
 ]
 TWINS = [
     T("detector-result-in-variable", X + "ms_legacy/ppt_extractor.py", "        if is_ppt_encrypted(file_like):\n            raise ExtractionFileEncryptedError(\"PPT is encrypted or password-protected\")", "        if is_ppt_encrypted(file_like):\n            logger.debug(\"encrypted ppt\")\n            raise ExtractionFileEncryptedError(\"PPT is encrypted or password-protected\")"),
     T("hex-vs-decimal-mask", X + "archive_extractor.py", "if info.flag_bits & 0x1:", "if info.flag_bits & 1:"),
+    T("epub-not-all-form", EP, "            if any(not _is_font_obfuscation(e) for e in encrypted):", "            if not all(_is_font_obfuscation(e) for e in encrypted):"),
+    T("epub-nonempty-conjunct", EP, "            if any(not _is_font_obfuscation(e) for e in encrypted):", "            if encrypted and any(not _is_font_obfuscation(e) for e in encrypted):"),
 ]
 
 # --- seeded changes kept under /verif/seeded (sub-agents saw only the property text); each must be reported by the named rule
@@ -31,5 +39,7 @@ SEEDED = [
     ("C08-3", "C08-PATCH"),
     ("C08-4", "C08-CONST"),
     ("C08-5", "C08-DET"),
+    ("C08-6", "C08-CONST"),
+    ("C08-7", "C08-CONST"),
 ]
 MUTANTS = list(MUTANTS) + [_P("seed-" + sid, _os.path.join(_SEEDS, sid, "patch.diff"), rule) for sid, rule in SEEDED if _os.path.exists(_os.path.join(_SEEDS, sid, "patch.diff"))]
